@@ -16,9 +16,10 @@ structure DState where
   s    : State
   cur  : Option CfgId        -- the loaded configuration new requests go to
   down : List Key            -- backends that refuse connections
-  keys : List (List Key)     -- configured upstream keys of every configuration generation
+  keys : List (List Key)     -- per holder (configuration generation or loop iteration): its upstream keys
+  iters : List (Nat × CfgId) -- dynamic upstreams: request → the holder of its loop iteration (latest first)
 
-def dinit : DState := { s := init, cur := none, down := [], keys := [] }
+def dinit : DState := { s := init, cur := none, down := [], keys := [], iters := [] }
 
 def stores (s : State) (c : CfgId) : List Key → Option State
   | [] => some s
@@ -128,7 +129,7 @@ inductive SStep
   deriving Repr
 
 def noParams : Params :=
-  { passive := false, failDur := 0, maxFails := 1, retries := 0, maxReq := 0, firstMax := 0, badStatus := [] }
+  { passive := false, failDur := 0, maxFails := 1, retries := 0, maxReq := 0, firstMax := 0, badStatus := [], dynamic := false }
 
 /-- the status code behind an answer token of the wire syntax (`none` = not a complete answer) -/
 def answerStatus : String → Option Nat
@@ -166,6 +167,83 @@ def curLive (d : DState) : Option CfgId :=
   | some c => if canceled d.s c then none else some c
   | none => none
 
+/-- the upstreams handler `c` itself holds in the pool: none if they come from a dynamic source -/
+def ownKeys (d : DState) (s : State) (c : CfgId) : List Key :=
+  match s.cfgs[c]? with
+  | some cs => if cs.par.dynamic then [] else keysOf d c
+  | none => []
+
+/-- does request `r` run on a handler with dynamic upstreams? -/
+def isDynReq (s : State) (r : Nat) : Bool :=
+  match s.reqs[r]? with
+  | some q => q.par.dynamic
+  | none => false
+
+def holderOf (d : DState) (r : Nat) : Option CfgId := (d.iters.find? (·.1 == r)).map (·.2)
+
+/-- reverseproxy.go:510-517 — the loop iteration of request `r` returns: its deferred
+    `hosts.Delete` of every dynamic upstream it provisioned (the iteration's holder is unloaded) -/
+def endIteration (d : DState) (s : State) (r : Nat) : Option State :=
+  match holderOf d r with
+  | some h => unload s h (keysOf d h)
+  | none => some s
+
+/-- bookkeeping of a new loop iteration of `r` whose holder is `h` with upstream keys `ks` -/
+def withIter (d : DState) (s : State) (r : Nat) (h : CfgId) (ks : List Key) : DState :=
+  { d with s := s, keys := d.keys ++ [ks], iters := (r, h) :: d.iters }
+
+/-- the proxy loop of a handler with dynamic upstreams (reverseproxy.go:494-597): every iteration
+    provisions the upstreams the source returns (a new pool holder: LoadOrStore each), selects among
+    them, and releases them when it returns — also when it returns in order to go round again -/
+def advanceDyn : Nat → DState → Nat → Option (DState × String)
+  | 0, _, _ => none
+  | fuel + 1, d, r =>
+    match d.s.reqs[r]? with
+    | none => none
+    | some q =>
+      match step d.s (.newCfg noParams) with
+      | none => none
+      | some s0 =>
+        match stores s0 d.s.cfgs.length (keysOf d q.cfg) with
+        | none => none
+        | some s1 =>
+          match s1.cfgs[d.s.cfgs.length]? with
+          | none => none
+          | some hs =>
+            match firstAvailable q.par s1 hs.ups with
+            | none =>
+              match step s1 (.noUpstream r) with
+              | none => none
+              | some s2 =>
+                match unload s2 d.s.cfgs.length (keysOf d q.cfg) with
+                | none => none
+                | some s3 =>
+                  if isDone s3 r then some (withIter d s3 r d.s.cfgs.length (keysOf d q.cfg), "err")
+                  else advanceDyn fuel (withIter d s3 r d.s.cfgs.length (keysOf d q.cfg)) r
+            | some u =>
+              match step s1 (.dispatch r u.2) with
+              | none => none
+              | some s2 =>
+                if keyDown d u.1 then
+                  match endAttempt s2 r .dialRefused with
+                  | none => none
+                  | some s3 =>
+                    match unload s3 d.s.cfgs.length (keysOf d q.cfg) with
+                    | none => none
+                    | some s4 =>
+                      if isDone s4 r then some (withIter d s4 r d.s.cfgs.length (keysOf d q.cfg), "err")
+                      else advanceDyn fuel (withIter d s4 r d.s.cfgs.length (keysOf d q.cfg)) r
+                else some (withIter d s2 r d.s.cfgs.length (keysOf d q.cfg), "P" ++ toString u.1)
+
+/-- an attempt of a request with dynamic upstreams ended in state `s1`: the iteration returns
+    (releasing its upstreams), then the request has returned (`res`) or goes round the loop again -/
+def continueOrRetDyn (d : DState) (s1 : State) (r : Nat) (res : String) : Option (DState × String) :=
+  match endIteration d s1 r with
+  | none => none
+  | some s2 =>
+    if isDone s2 r then some ({ d with s := s2 }, res)
+    else advanceDyn fuel0 { d with s := s2 } r
+
 /-- after an attempt ended: the request returned (`res`) or goes round the loop again -/
 def continueOrRet (d : DState) (s1 : State) (r : Nat) (res : String) : Option (DState × String) :=
   if isDone s1 r then some ({ d with s := s1 }, res)
@@ -178,7 +256,7 @@ def sstep (d : DState) : SStep → Option (DState × String)
     match step d.s (.newCfg p) with
     | none => none
     | some s1 =>
-      match stores s1 d.s.cfgs.length ks with
+      match stores s1 d.s.cfgs.length (if p.dynamic then [] else ks) with
       | none => none
       | some s2 =>
         match d.cur with
@@ -186,7 +264,7 @@ def sstep (d : DState) : SStep → Option (DState × String)
         | some old =>
           if canceled s2 old then some ({ d with s := s2, cur := some d.s.cfgs.length, keys := d.keys ++ [ks] }, "L")
           else
-            match unload s2 old (keysOf d old) with
+            match unload s2 old (ownKeys d s2 old) with
             | none => none
             | some s3 => some ({ d with s := s3, cur := some d.s.cfgs.length, keys := d.keys ++ [ks] }, "L")
   | .badLoad ks =>
@@ -200,7 +278,7 @@ def sstep (d : DState) : SStep → Option (DState × String)
     match curLive d with
     | none => none
     | some c =>
-      match unload d.s c (keysOf d c) with
+      match unload d.s c (ownKeys d d.s c) with
       | none => none
       | some s1 => some ({ d with s := s1 }, "C")
   | .newReq get =>
@@ -209,9 +287,38 @@ def sstep (d : DState) : SStep → Option (DState × String)
     | some c =>
       match step d.s (.newReq c get) with
       | none => none
-      | some s1 => (advance fuel0 { d with s := s1 } d.s.reqs.length).map fun x => ({ d with s := x.1 }, x.2)
+      | some s1 =>
+        if isDynReq s1 d.s.reqs.length then advanceDyn fuel0 { d with s := s1 } d.s.reqs.length
+        else (advance fuel0 { d with s := s1 } d.s.reqs.length).map fun x => ({ d with s := x.1 }, x.2)
   | .answer r what =>
-    if isParked d.s r then
+    if isParked d.s r && isDynReq d.s r then
+      match d.s.reqs[r]? with
+      | none => none
+      | some q =>
+        if what == "rst" then
+          match endAttempt d.s r .upstreamErr with
+          | none => none
+          | some s1 => continueOrRetDyn d s1 r "err"
+        else
+          match answerStatus what with
+          | none => none
+          | some code =>
+            match strikesN d.s r (if q.par.counting then strikeCount q.par.badStatus code else 0) with
+            | none => none
+            | some s1 =>
+              if what == "hup" || what == "pan" then
+                match endAttempt s1 r .panic with
+                | none => none
+                | some s2 => continueOrRetDyn d s2 r "panic"
+              else if what == "her" then
+                match endAttempt s1 r .handlerErr with
+                | none => none
+                | some s2 => continueOrRetDyn d s2 r "err"
+              else
+                match endAttempt s1 r .ok with
+                | none => none
+                | some s2 => continueOrRetDyn d s2 r "ok"
+    else if isParked d.s r then
       match d.s.reqs[r]? with
       | none => none
       | some q =>
@@ -234,28 +341,35 @@ def sstep (d : DState) : SStep → Option (DState × String)
               else (endAttempt s1 r .ok).map fun s2 => ({ d with s := s2 }, "ok")
     else none
   | .abort r =>
-    if isParked d.s r then (endAttempt d.s r .clientAbort).map fun s1 => ({ d with s := s1 }, "ok")
+    if isParked d.s r && isDynReq d.s r then
+      match endAttempt d.s r .clientAbort with
+      | none => none
+      | some s1 => continueOrRetDyn d s1 r "ok"
+    else if isParked d.s r then (endAttempt d.s r .clientAbort).map fun s1 => ({ d with s := s1 }, "ok")
     else none
   | .bdown k => if keyDown d k then none else some ({ d with down := k :: d.down }, "-")
   | .bup k => if keyDown d k then some ({ d with down := d.down.erase k }, "-") else none
   | .ticks n => some ({ d with s := tickN d.s n }, "-")
 
 /-- quiescence: clients of parked requests r-1 … go away in request order, everything is unloaded -/
-def abortAllFrom (s : State) : Nat → Nat → State
+def abortAllFrom (d : DState) (s : State) : Nat → Nat → State
   | _, 0 => s
   | r, n + 1 =>
     if isParked s r then
       match endAttempt s r .clientAbort with
-      | some s1 => abortAllFrom (settle s1) (r + 1) n
-      | none => abortAllFrom s (r + 1) n
-    else abortAllFrom s (r + 1) n
+      | some s1 =>
+        match endIteration d s1 r with
+        | some s2 => abortAllFrom d (settle s2) (r + 1) n
+        | none => abortAllFrom d (settle s1) (r + 1) n
+      | none => abortAllFrom d s (r + 1) n
+    else abortAllFrom d s (r + 1) n
 
 def quiesce (d : DState) : State :=
   match curLive d with
   | some c =>
-    match unload (abortAllFrom d.s 0 d.s.reqs.length) c (keysOf d c) with
+    match unload (abortAllFrom d d.s 0 d.s.reqs.length) c (ownKeys d d.s c) with
     | some s1 => settle s1
-    | none => settle (abortAllFrom d.s 0 d.s.reqs.length)
-  | none => settle (abortAllFrom d.s 0 d.s.reqs.length)
+    | none => settle (abortAllFrom d d.s 0 d.s.reqs.length)
+  | none => settle (abortAllFrom d d.s 0 d.s.reqs.length)
 
 end CaddyModel.C09
